@@ -376,3 +376,47 @@ func VerifC03DeleteIntKeyMap() {
 	verifAssert(verifEqStr(got, want), "C03/exactly-the-selection "+label)
 	verifCover("C03/intmap/end")
 }
+
+// VerifC03DeleteDocuments: in eval-all mode the selection may name whole documents (`del(select(.a == V))` over N
+// documents). Exactly the selected documents are absent afterwards, the others are still there, unchanged and in order.
+func VerifC03DeleteDocuments() {
+	n := 2 + verifChoice("docs", 3)
+	var docs []*CandidateNode
+	var vals []string
+	for i := 0; i < n; i++ {
+		v := verifStrN("a"+verifItoa(int64(i)), 1, "02")
+		vals = append(vals, v)
+		docs = append(docs, vDocAt(vMap(vStr("a"), vInt(v), vStr("i"), vInt(verifItoa(int64(i)))), uint(i), 0, "f.yml"))
+	}
+	w := verifStrN("v", 1, "02")
+	form := verifChoice("form", 3)
+	expr := []string{"del(select(.a == 7770003))", "del(select(.a == 7770003), select(.a == 0))", "del(.. | select(has(\"a\")) | select(.a == 7770003))"}[form]
+	exp := vParse(expr)
+	vSubst(exp, "7770003", "!!int", w)
+	res, err := vEvalList(exp, docs...)
+	label := "documents form=" + verifItoa(int64(form))
+	verifAssert(err == nil, "C03/del-error "+label)
+	if err != nil {
+		return
+	}
+	out := vNodes(res)
+	k := 0
+	for i := 0; i < n; i++ {
+		doomed := verifEqStr(vals[i], w)
+		if form == 1 {
+			doomed = verifOr(doomed, verifEqStr(vals[i], "0"))
+		}
+		if doomed {
+			continue
+		}
+		verifAssert(k < len(out), "C03/del-removed-a-document-that-was-not-selected "+label)
+		if k >= len(out) {
+			return
+		}
+		verifAssert(out[k] == docs[i], "C03/del-kept-a-selected-document-or-lost-the-order "+label)
+		verifAssert(verifEqStr(vDump(out[k]), "{<!!str a>: <!!int "+vals[i]+">, <!!str i>: <!!int "+verifItoa(int64(i))+">}"), "C03/del-changed-a-surviving-document "+label)
+		k++
+	}
+	verifAssert(k == len(out), "C03/del-kept-a-selected-document "+label)
+	verifCover("C03/documents/end")
+}
